@@ -8,6 +8,7 @@ open UtilModel
 #print axioms Promise.reachable_inv
 #print axioms Promise.set_once
 #print axioms Promise.await_result
+#print axioms Promise.born_resolved
 #print axioms Promise.container_await_result
 #print axioms Promise.await_enabled
 #print axioms Promise.await_blocks
